@@ -12,7 +12,8 @@ from props import c14lb as LB
 
 THEOREMS = ['builder_roundtrip', 'from_iter_session_full', 'builder_roundtrip_partial', 'from_iter_session',
             'builder_roundtrip_tuples_partial', 'builder_roundtrip_records_partial', 'snapshot_immutable',
-            'snapshot_stable_values', 'equal_states_equal_snapshots', 'ill_nested_errors', 'growth_irrelevant']
+            'snapshot_stable_values', 'equal_states_equal_snapshots', 'ill_nested_errors', 'growth_irrelevant',
+            'lb_roundtrip', 'lb_type', 'lb_misfit_errors', 'lb_prefix_snapshot']
 COQ_DIR = os.path.join(C.VERIF, 'c14', 'coq')
 COQ_LOGICAL = '-R %s/coq AwkV -R . AwkBuilder' % C.VERIF
 NEEDS_SAN = True
@@ -25,7 +26,16 @@ RULE = ('sessions = command sequences over {null,bool,int,real,str,bytes,beginli
         'snapshots at random positions and a final snapshot; 30% are such sequences mutated (delete / insert / swap / '
         'duplicate a command, bad tuple index, bad numfields, stray end/field/index) ; initial in {1,2,3}, '
         'resize in {1.01,1.1,1.5,2} so that every buffer is reallocated at (almost) every size. non-trivial = the '
-        'session has >= 1 snapshot of length >= 1 and >= 1 bracket command; distinct by session text')
+        'session has >= 1 snapshot of length >= 1 and >= 1 bracket command; distinct by session text. '
+        'Form-driven builder (LayoutBuilder, driver lbdrv, specification LBuilder.lb_run): random Forms over every node '
+        'class (NumpyForm of every dtype, EmptyForm, ListOffsetForm i32/u32/i64 also string/bytestring, ListForm, '
+        'RegularForm, IndexedForm, IndexedOptionForm i32/i64, ByteMasked/BitMasked/UnmaskedForm, UnionForm, RecordForm '
+        'with keys / tuple), depth <= 3; 70% of the sessions are lb_encode of random conforming values (the encoding is '
+        're-derived by the extracted lb_encode and must round-trip through lb_run) with snapshots at element boundaries '
+        'or anywhere, 30% are such sessions mutated (delete / insert / swap / duplicate / replace by null, bool, int, '
+        'real, str, bytes, beginlist, endlist, tag, index: wrong command for the form, unbalanced end_list, wrong tag); '
+        'a Form on which a registered known deviation applies is drawn only while that finding is open in '
+        'known_findings.json (c14lb.features); verdict per session agree / viol / skip(unspecified)')
 ASSUMPTIONS = [
     'theorems: builder_roundtrip / from_iter_session_full are the FULL round trip: every list of well-formed Python values '
     '(Spec.pywf = distinct keys in one dict): None/bool/int/real/string/bytestring, lists, tuples of any arity, records '
@@ -46,13 +56,37 @@ ASSUMPTIONS = [
     'snapshot_immutable is a theorem about the model with allocation identities (Phys*.v); that each C++ '
     'GrowableBuffer object has a single owner (no two builders share one buffer) is read off the code, and checked on '
     'the implementation only through the re-dump of all snapshots at the end of every session (also under ASan/UBSan)',
-    'LayoutBuilder (Form-driven) is not present in the pinned tree (awkward 1.4.0); extern "C" entry points not driven',
+    'extern "C" entry points not driven',
+    'Form-driven LayoutBuilder (1.4.0 has the single class LayoutBuilder over ForthMachine32; no 32/64-bit variants): '
+    'lb_run is a SPECIFICATION (what a Form-driven builder must return), not a model of the Forth program; theorems '
+    'lb_roundtrip (all forms of all supported node classes, all conforming values; needs `unambiguous`: below an option '
+    'node no element begins with null -- refuted otherwise, LBProofs.ex_ambiguous_refuted), lb_type (every completed '
+    'element of ANY session has the type of the form), lb_misfit_errors (a command no element may begin with, after any '
+    'conforming values: error or unspecified, never a value), lb_prefix_snapshot (commands up to an element boundary = '
+    'the completed elements); not proved: that the fuel (= number of commands) always suffices, and the mid-element '
+    'LPartial answer for all sessions (only run + Example)',
+    'LayoutBuilder: what the C++ does not check is LUnspec and not compared from that command on: begin_list/end_list on '
+    'a NumpyForm leaf (no-ops), a non-tag command where a UnionForm expects its tag (dropped), string commands on uint8 '
+    'leaves / empty strings / string vs bytestring, index (categorical), EmptyForm below a node, ListForm (constructor '
+    'always raises), RecordForm without fields, RegularForm size <= 0, integers outside int64; leaves other than '
+    'bool/int64/float64 have no command and refuse everything; complex() is not driven (16-byte datum into the 8-byte '
+    'input buffer: heap overflow, reported); initial < 8 likewise only from the corpus',
+    'LayoutBuilder misfits: the specification reports the FIRST offending command; the implementation must raise at that '
+    'call, at a later call or at the next snapshot (tag/begin_list/end_list/index call the Forth machine without '
+    'looking at its error state) -- what is checked is that no snapshot returns a value after a misfit without an '
+    'error having been raised; positions and messages are not compared; after the first error nothing is compared',
+    'LayoutBuilder known deviations (registered findings lb-*): sessions on Forms where one applies are classified by the '
+    'FIRST applicable signature of c14lb.features (shape of the Form), which can mask a different defect on the same Form; '
+    'LayoutBuilder::length() (constant 8) is compared with the snapshot length and reported under lb-length-constant only',
 ]
 TRUSTED_BASE = [
     'Rocq kernel: coqc 8.16.1; no axioms (Print Assumptions parsed on this run)',
     'extraction: ExtrOcamlBasic only, Z/positive/nat inductive; OCaml 4.13.1; readers/printers ocaml/sx.ml, ocaml/rd.ml, '
     'c14/ocaml/buildrun.ml (verdict logic, type normalisation)',
-    'C++ driver impl/drv/builddrv.cpp + drv_common.h (layout dumper)',
+    'C++ driver impl/drv/builddrv.cpp + drv_common.h (layout dumper); impl/drv/lbdrv.cpp (Form construction from text)',
+    'c14/ocaml/lbrun.ml (verdict logic of the LayoutBuilder sessions), harness/props/c14lb.py (Form/value generator, '
+    'encoder mirror checked against the extracted lb_encode, classification of known deviations by Form shape)',
+    'LBuilder.v is a hand-written specification read off src/libawkward/layoutbuilder/*.cpp, tied by differential testing only',
     'generator / mutation / classification in harness/props/c14.py',
     'RapidJSON substitute impl/rapidjson_shim (libawkward is compiled against it; not used by the builders)',
     'Builder.v is a hand-written model of src/libawkward/builder/*.cpp, tied by differential testing only',
@@ -325,7 +359,7 @@ def cases(rng, tier):
             full = sprinkle(rng, m, 'snapshot', rng.choice([1, 2, 4])) + ['snapshot']
             out.append(make_case('m%d' % i, opts, full, None, dict(tags, stream='mutated')))
     # the Form-driven builder (LayoutBuilder): random forms x (encoded conforming values | mutated sessions)
-    out += LB.gen_sessions(rng, 1200 if tier == 'quick' else 20000, 40 if tier == 'quick' else 200, LB.registered())
+    out += LB.gen_sessions(rng, 5000 if tier == 'quick' else 40000, 40 if tier == 'quick' else 200, LB.registered())
     return out
 
 
